@@ -9,6 +9,10 @@ use std::fs::File;
 use std::io::Read;
 use std::str::Lines;
 
+/// The maximum depth to which sections can be nested.
+/// The parser is recursive, so without a limit a deeply nested file would overflow the stack.
+pub const MAX_DEPTH: usize = 64;
+
 /// Represents a node in the configuration syntax tree.
 #[derive(PartialEq, Eq, Clone, Debug)]
 pub enum ConfigNode {
@@ -153,7 +157,7 @@ pub fn parse_conf(conf: &str, filename: &str) -> Result<ConfigNode, ConfigError>
     }
 
     // Parses the main section
-    parse_section("server", &mut lines, filename)
+    parse_section("server", &mut lines, filename, 0)
 }
 
 /// Recursively parses a section of the configuration.
@@ -161,7 +165,17 @@ fn parse_section(
     name: &str,
     lines: &mut TracebackIterator<Lines>,
     filename: &str,
+    depth: usize,
 ) -> Result<ConfigNode, ConfigError> {
+    // Refuse to nest any deeper than the limit, reporting the line which opens the section
+    if depth >= MAX_DEPTH {
+        return Err(ConfigError::new(
+            "Sections are nested too deeply",
+            filename,
+            lines.current_line(),
+        ));
+    }
+
     let mut values: Vec<ConfigNode> = Vec::new();
 
     // While this section has not ended
@@ -178,7 +192,7 @@ fn parse_section(
                 if section_name.starts_with("route ") && section_name != "route {" {
                     // If the section is a route section, parse it as such
                     let route_name = section_name.splitn(2, ' ').last().unwrap().trim();
-                    let section = parse_section(route_name, lines, filename)?;
+                    let section = parse_section(route_name, lines, filename, depth + 1)?;
                     if let ConfigNode::Section(route_name, inner_values) = section {
                         values.push(ConfigNode::Route(route_name, inner_values));
                     }
@@ -193,13 +207,13 @@ fn parse_section(
                             .to_string()
                     };
 
-                    let section = parse_section(&host_name, lines, filename)?;
+                    let section = parse_section(&host_name, lines, filename, depth + 1)?;
                     if let ConfigNode::Section(host_name, inner_values) = section {
                         values.push(ConfigNode::Host(host_name, inner_values));
                     }
                 } else {
                     // If the section is just a regular section, parse it in the normal way
-                    values.push(parse_section(section_name, lines, filename)?);
+                    values.push(parse_section(section_name, lines, filename, depth + 1)?);
                 }
             } else if line == "}" {
                 // If the line indicates the end of this section, return the parsed section
@@ -273,7 +287,7 @@ fn include(path: &str, containing_file: &str, line: u64) -> Result<Vec<ConfigNod
             buf.push_str("\n}");
 
             let mut iter = TracebackIterator::from(buf.lines());
-            let parsed_node = parse_section("temp_included_section", &mut iter, path)?;
+            let parsed_node = parse_section("temp_included_section", &mut iter, path, 0)?;
 
             match parsed_node {
                 ConfigNode::Section(_, children) => Ok(children),
